@@ -68,4 +68,12 @@ let () =
         let bang _ t = t in
         let r = session_run bang [] (List.map str_of_field typed) in
         print_endline (String.concat "\t" (List.map e r))
+    | "procs" :: ps ->
+        let bang _ t = t in
+        let procs = List.map (fun f ->
+          match List.map str_of_bytes (String.split_on_char us (dec_bytes f)) with
+          | k :: rest when bytes_of_str k = "I" -> Interactive rest
+          | [k; line] when bytes_of_str k = "A" -> AddCmd line
+          | _ -> failwith "bad proc") ps in
+        print_endline (String.concat "\t" (List.map e (db_procs bang [] procs)))
     | _ -> print_endline "?bad-case") Sys.argv.(1)
